@@ -119,7 +119,7 @@ PROPS = {
         "well-formed probe requests run concurrently on the other connections. Oracle: no sanitizer report / signal / exception out of service::run(); every probe answered exactly as C01 demands; handler entered <= 1 per request; requests that cannot be served never reach the application and get status >= 400 or a close; "
         "the offending connection is answered or closed within http.timeout+6 simulated seconds; no accepted connection stays open after all peers are gone. non-trivial = run with >= 1 malformed exchange and >= 1 probe; distinct = trace hash",
    fault_keys=["malformed_exchanges", "short_reads", "short_writes", "eagain", "eintr", "spurious_wakeups"],
-   probe_keys=["malformed_refused_as_required", "exchanges", "keepalive_followups", "reactor_epoll", "reactor_poll", "reactor_select"],
+   probe_keys=["malformed_refused_as_required", "exchanges", "keepalive_followups", "filter_on_error_calls", "filters_installed", "reactor_epoll", "reactor_poll", "reactor_select"],
    components=E1C,
    assumptions=["nothing is demanded about WHETHER cppcms tolerates a malformed input or WHICH error it picks, except for the listed classes that cannot be served", "ASan/UBSan (minus the nonnull-attribute check: memcpy(NULL,..,0) is not treated as memory-unsafe) decide memory safety",
                 "peer RST-on-close-with-unread-data is not modelled (closes are graceful)"],
@@ -148,11 +148,11 @@ PROPS = {
    rule="case = as C01, with 80% of POST/PUT bodies being multipart/form-data: 0..9 parts (quoted/unquoted names, optional filename, optional Content-Type => file vs field), contents 0..300 KB of random bytes / CR-LF-dash runs with planted look-alikes of the delimiter (every proper prefix of CRLF--boundary, delimiter minus last byte at the end, CRLF-- in the middle), "
         "boundaries of 1..70 chars incl. leading '-', sent over http/scgi/fastcgi to sync and async mounts with client segmentation, FastCGI STDIN record sizes, input_buffer_size 1..64K and transport read splitting deciding every parser chunk; file_in_memory_limit 0..128K (spill to temp files); content/multipart limits 1 KB..2 MB. "
         "Oracle: fields and files observed by the application (name, file name, media type, byte-exact content by length+hash+head+tail, order) equal those encoded; bodies over a limit get 413 and never reach the handler; malformed multipart bodies (C02 operators: no final boundary, bad part header, not form-data, truncation, length lies) never reach the handler; "
-        "the upload directory is empty after the run. non-trivial = run with a body or >= 2 segments; distinct = trace hash",
+        "a third of the bodies sent to asynchronous mounts go through an application that installs a raw_content_filter or a multipart_filter: the raw filter must see every body byte exactly once (length+hash) with one on_end_of_content, the multipart filter one on_new_file/on_data_ready per part, sizes never shrinking, and on_error at most once and never together with completion; the upload directory is empty after the run. non-trivial = run with a body or >= 2 segments; distinct = trace hash",
    fault_keys=["short_reads", "short_writes", "eagain", "eintr", "spurious_wakeups"],
-   probe_keys=["requests_with_body", "over_limit_413", "multi_segment_requests", "keepalive_followups"],
+   probe_keys=["requests_with_body", "over_limit_413", "content_filter_requests", "filters_installed", "filter_on_error_calls", "multi_segment_requests", "keepalive_followups"],
    components=E1C,
-   assumptions=["content filters (raw_content_filter / multipart_filter callbacks) are not exercised yet", "temp files live on a real scratch directory under /dev/shm (file I/O of uploads is not simulated); fwrite failures are not injected",
+   assumptions=["temp files live on a real scratch directory under /dev/shm (file I/O of uploads is not simulated); fwrite failures are not injected",
                 "media type is compared without parameters (file::mime() documents the media type)"],
    category="exploration",
    text="Deterministic simulation of uploads through the real front-ends and multipart parser: seeded part lists with adversarial boundary look-alikes, every chunking decided by client segmentation, buffer sizes and transport splitting; exact reconstruction, limits and temp-file clean-up are checked.",
